@@ -59,6 +59,9 @@ type Scenario struct {
 	Fault       string `json:"fault"`    // "" | connect | exec
 	FaultAt     int    `json:"fault_at"` // which occurrence (0-based) of that operation kind fails, once
 	UnknownRes  bool   `json:"unknown_res"`
+	// Poison: before its own requests the first caller hands in a commit for a resource whose cache entry makes the commit
+	// worker's task panic (a batch of its own: buffer limit 2); the later requests must still be served
+	Poison bool `json:"poison,omitempty"`
 	Ticks       int    `json:"ticks"`
 	Bound       int    `json:"bound"`
 }
@@ -111,6 +114,14 @@ func scenarios(thorough bool) []Scenario {
 		u := s
 		u.Name, u.UnknownRes, u.Ticks = n+"/unknown-resource", true, 6
 		out = append(out, u)
+	}
+	for _, n := range names {
+		if len(streams[n]) < 2 {
+			continue
+		}
+		x := base
+		x.Name, x.Reqs, x.BufferLimit, x.Poison, x.Ticks = n+"/poisoned-batch", streams[n], 2, true, 6
+		out = append(out, x)
 	}
 	// a whole group is put back (connection acquisition fails) while the receive queue is full and callers are waiting to send
 	for _, n := range names {
@@ -253,6 +264,9 @@ func runOne(sc Scenario, prefix []int) execResult {
 	if !sc.UnknownRes {
 		mk("resA")
 	}
+	if sc.Poison {
+		resMap.Store("resP", "not a *DBResource") // the worker's type assertion on this entry panics
+	}
 	x := execResult{statuses: make([]branch.BranchStatus, len(sc.Reqs)), errs: make([]error, len(sc.Reqs)), returned: make([]bool, len(sc.Reqs))}
 	var mu sync.Mutex
 	counts := map[string]int{}
@@ -315,6 +329,9 @@ func runOne(sc Scenario, prefix []int) execResult {
 	for c := 0; c < sc.Callers; c++ {
 		c := c
 		s.Go(fmt.Sprintf("caller-%d", c), func() {
+			if sc.Poison && c == 0 {
+				aw.BranchCommit(context.Background(), rm.BranchResource{ResourceId: "resP", Xid: "xp", BranchId: 1})
+			}
 			for i := c; i < len(sc.Reqs); i += sc.Callers {
 				q := sc.Reqs[i]
 				st, err := aw.BranchCommit(context.Background(), rm.BranchResource{ResourceId: q.Res, Xid: q.Xid, BranchId: q.Branch})
